@@ -586,7 +586,9 @@ impl<'a> Bytes<'a> {
 impl RawGrammar {
     pub fn from_bytes(b: &mut Bytes) -> RawGrammar {
         let source = b.u8() & 3;
-        let seed_ix = b.u16();
+        // the scaled families are left to the proptest engine: coverage guidance gravitates towards the largest
+        // grammars (most new edges), which cost kiki 0.1 .. 2 s each and starve the campaign
+        let seed_ix = b.u16().min(0xFA00);
         let n_terms = (b.u8() as usize % 15) as u8;
         let n_nts = 1 + b.len(11);
         let mut nts = vec![];
